@@ -492,9 +492,37 @@ func c35Enum(c *lib.Ctx, yield func(c35Case) bool) {
 		}
 	}
 	// (S) every subset of kinds x tag variants x batch size x insert/flush history
-	maxFields := lib.Pick(c, 2, 3)
-	hists := c35Hists("af", lib.Pick(c, 3, 5))
+	// (3-field subsets: thorough only, histories of <= 3 operations)
 	batches := lib.Pick(c, []int{2}, []int{1, 2, 3})
+	histsFor := map[int][]string{
+		1: c35Hists("af", lib.Pick(c, 3, 5)),
+		2: c35Hists("af", lib.Pick(c, 3, 4)),
+		3: c35Hists("af", 3),
+	}
+	maxFields := lib.Pick(c, 2, 3)
+	// A kind whose single boundary value already cannot be stored is reported by
+	// family (V) and by the 1- and 2-field shapes; repeating that failure in
+	// every 3-field shape would only multiply the same violation (and the 5x
+	// confirmation re-runs), so such kinds are left out of the 3-field shapes.
+	broken := map[reflect.Kind]bool{}
+	if maxFields >= 3 {
+		for _, k := range c35Kinds {
+			for v := 0; v < 5 && !broken[k]; v++ {
+				if _, p := c35Run(c35Case{Fields: []c35Field{{Kind: k.String()}}, Hist: "a", V0: v}); len(p) > 0 {
+					broken[k] = true
+				}
+			}
+		}
+		if len(broken) > 0 {
+			var ks []string
+			for _, k := range c35Kinds {
+				if broken[k] {
+					ks = append(ks, k.String())
+				}
+			}
+			c.Note("3-field shapes leave out the kinds %v: a single value of each already fails (reported under family V and the 1-/2-field shapes)", ks)
+		}
+	}
 	var subsets [][]reflect.Kind
 	var rec func(start int, cur []reflect.Kind)
 	rec = func(start int, cur []reflect.Kind) {
@@ -510,9 +538,18 @@ func c35Enum(c *lib.Ctx, yield func(c35Case) bool) {
 	}
 	rec(0, nil)
 	for _, sub := range subsets {
+		if len(sub) == 3 {
+			skip := false
+			for _, k := range sub {
+				skip = skip || broken[k]
+			}
+			if skip {
+				continue
+			}
+		}
 		for _, fs := range c35TagVariants(sub) {
 			for _, b := range batches {
-				for _, h := range hists {
+				for _, h := range histsFor[len(sub)] {
 					if !yield(c35Case{Fields: fs, Batch: b, Hist: h}) {
 						return
 					}
@@ -545,7 +582,7 @@ func init() {
 		Level: "exploration",
 		Rule: "sequential half. Real datarecording.NewDataRecorder writing a SQLite file on tmpfs; entry types built with reflect.StructOf. " +
 			"(V) each of the 16 allowed field kinds x each of 5 boundary values (0, +-1, min/max of the kind, float extremes; strings: empty, quotes+SQL, unicode, embedded NUL), string also as interned location; " +
-			"(S) every subset of <= 2 (quick) / 3 (thorough) distinct kinds x tag variants {none, string as location, last field ignored, both} x batch size {2} (thorough {1,2,3}, via the verif hook VerifSetBatchSize) x every history of <= 3 (thorough 5) {insert, Flush}; " +
+			"(S) every subset of <= 2 distinct kinds x tag variants {none, string as location, last field ignored, both} x batch size {2} (thorough {1,2,3}, via the verif hook VerifSetBatchSize) x every history of <= 3 (thorough: 5 for one kind, 4 for two) {insert, Flush}; thorough also every 3-kind subset (kinds whose single value already fails left out, see notes) x histories of <= 3; " +
 			"(H) two tables sharing the location table: 4 shapes x batch size {1,2,3,default} x every history of <= 4 (thorough 5) {insert ta, insert tb, Flush}. Every history ends with Close; the i-th insert uses the (i+offset)-th lattice value of each field. " +
 			"Oracle: the file is reopened with database/sql (same driver): per table the multiset of rows (non-ignored columns, numbers compared by value, location IDs resolved through the location table) equals the multiset of inserted entries; location table: IDs distinct, strings distinct, exactly the strings used; no panic. Each case is distinct.",
 		Sharded:     true,
